@@ -6,7 +6,9 @@
 set -u
 P=$1; D=$(readlink -f $2); TIER=${3:-quick}
 WT=/tmp/try-$P-$$
-git -C /repo worktree add --detach $WT HEAD >/dev/null 2>&1 || exit 3
+# (several of these run at once: `git worktree add` takes a lock, so a loser of that race tries again)
+for try in 1 2 3 4 5 6; do git -C /repo worktree add --detach $WT HEAD >/dev/null 2>&1 && break; sleep $((try * 2)); done
+[ -d $WT ] || { echo "SEED $P $D: could not create a scratch worktree"; exit 3; }
 cleanup() { git -C /repo worktree remove --force $WT >/dev/null 2>&1; rm -rf /tmp/trybuild-$P-$$ /tmp/try-$P-$$-*.log /tmp/try-$P-$$-apply.err; }
 trap cleanup EXIT
 cd $WT
